@@ -183,7 +183,7 @@ def run(ctx):
         return res
 
     stdout_obs = {}  # discrepancies seen only in the stdout exporters' JSON: observations, never violations
-    pool = {"replay": [], "random": [], "e2e": []}  # recorded trace lines waiting for the comparator
+    pool = {"replay": [], "random": [], "e2e": [], "interleave": []}  # recorded trace lines waiting for the comparator
 
     def validate(direction, flush=False):
         """TLC (Trace_OtlpGrouping) is the comparator; lines of several configurations are pooled so that one
@@ -251,6 +251,26 @@ def run(ctx):
     stats["random_batches"] = res["executed"]
     pool["random"] += open(trace).read().splitlines()
     validate("random", flush=True)
+
+    # ---- several exporter instances of one kind whose exports interleave (specs/OtlpGrouping/Interleave.tla):
+    # every history of (instance, attempt) events against a scripted collector (503 then 200), all three signals,
+    # uncompressed and gzip; every received request is judged against the batch of ITS OWN export
+    for shape in (["one", "both"] if thorough else ["one"]):
+        r = ctx.tlc(S, "MC_Interleave", "MC_Interleave.cfg", defines={"SHAPE": shape}, want_edges=True,
+                    name="interleave-%s" % shape, timeout=1200, heap="2g")
+        stats["interleave_histories"] = stats.get("interleave_histories", 0) + r.get("edges", 0)
+        trace = os.path.join(ctx.work, "interleave-%s.ndjson" % shape)
+        resf = os.path.join(ctx.work, "interleave-%s.json" % shape)
+        ctx.run([binp, "interleave", "-tables", tables_f, "-edges", r["edges_file"], "-rounds", str(4 if thorough else 2),
+                 "-out", trace, "-res", resf], timeout=3000)
+        absorb(resf, "interleave")
+        pool["interleave"] += open(trace).read().splitlines()
+        os.remove(trace)
+    validate("interleave", flush=True)
+    ic = counters.get("interleave", {})
+    for k in ("histories_trace", "histories_metric", "histories_log", "histories_gzip", "requests_retried"):
+        if not ic.get(k):
+            ctx.note_inconclusive("vacuity: interleaved exporter instances never reached %s" % k)
 
     # ---- end to end: real providers -> processors / readers -> exporters -> collector (specs/OtelSDK)
     for c in e2e_configs(ctx.tier):
